@@ -115,13 +115,20 @@ ValsElems == { V(n, l, f, g, 0, 0) : n \in BOOLEAN, l \in {0, 1, 2, 126, 127, 12
 
 \* ------------------------------------------------------------------ state machine: all pairs of documents
 CONSTANTS MaxLen, Vals
-VARIABLES xm, xs, ym, ys
-vars == <<xm, xs, ym, ys>>
+VARIABLES xm, xs, xp, ym, ys, yp          \* two documents (marker, list) and their pre-images
+vars == <<xm, xs, xp, ym, ys, yp>>
 
-Init == xm \in BOOLEAN /\ ym \in BOOLEAN /\ xs = <<>> /\ ys = <<>>
+Init == /\ xm \in BOOLEAN /\ ym \in BOOLEAN /\ xs = <<>> /\ ys = <<>>
+        /\ xp = Preimage(xm, xs) /\ yp = Preimage(ym, ys)
 \* x is completed before y grows: every pair (xs, ys) is reached along exactly one path
-GrowX == ys = <<>> /\ Len(xs) < MaxLen /\ \E v \in Vals : xs' = Append(xs, v) /\ UNCHANGED <<xm, ym, ys>>
-GrowY == Len(ys) < MaxLen /\ \E v \in Vals : ys' = Append(ys, v) /\ UNCHANGED <<xm, ym, xs>>
+GrowX == /\ ys = <<>> /\ Len(xs) < MaxLen
+         /\ \E v \in Vals : xs' = Append(xs, v)
+         /\ xp' = Preimage(xm, xs')
+         /\ UNCHANGED <<xm, ym, ys, yp>>
+GrowY == /\ Len(ys) < MaxLen
+         /\ \E v \in Vals : ys' = Append(ys, v)
+         /\ yp' = Preimage(ym, ys')
+         /\ UNCHANGED <<xm, ym, xs, xp>>
 Next == GrowX \/ GrowY
 Spec == Init /\ [][Next]_vars
 
@@ -129,18 +136,20 @@ Norm(v) == IF IsZero(v) THEN [neg |-> FALSE, mag |-> <<>>] ELSE v          \* -0
 NormL(l) == [i \in 1..Len(l) |-> Norm(l[i])]
 SameDoc == xm = ym /\ NormL(xs) = NormL(ys)      \* same marker, same count, same integers in the same order
 
-TypeOK == /\ \A i \in 1..Len(Preimage(xm, xs)) : Preimage(xm, xs)[i] \in Byte
-          /\ Preimage(xm, xs)[1] = TagSequence
-Injective == Preimage(xm, xs) = Preimage(ym, ys) => SameDoc
+TypeOK == /\ \A i \in 1..Len(yp) : yp[i] \in Byte
+          /\ yp[1] = TagSequence
+          /\ xp = Preimage(xm, xs)
+Injective == xp = yp => SameDoc
 \* stronger: no pre-image is a proper prefix of another one (length-extension of the encoding is impossible)
-DocPrefixFree == IsPrefix(Preimage(xm, xs), Preimage(ym, ys)) => SameDoc
+DocPrefixFree == IsPrefix(xp, yp) => SameDoc
 \* element encodings (the marker, the count, every integer) are prefix-free: a concatenation parses uniquely
 LastOr(s, d) == IF s = <<>> THEN d ELSE s[Len(s)]
 ElemPrefixFree ==
-   LET a == LastOr(xs, Nat2Int(0))  b == LastOr(ys, Nat2Int(0)) IN
-   /\ IsPrefix(DERInt(a), DERInt(b)) => Norm(a) = Norm(b)
-   /\ ~IsPrefix(DERBool(TRUE), DERInt(b)) /\ ~IsPrefix(DERInt(a), DERBool(TRUE))
+   LET a == LastOr(xs, Nat2Int(0))  b == LastOr(ys, Nat2Int(0))
+       ea == DERInt(a)  eb == DERInt(b)  t == DERBool(TRUE) IN
+   /\ IsPrefix(ea, eb) => Norm(a) = Norm(b)
+   /\ ~IsPrefix(t, eb) /\ ~IsPrefix(ea, t)
    /\ IsPrefix(DERInt(Nat2Int(Len(xs))), DERInt(Nat2Int(Len(ys)))) => Len(xs) = Len(ys)
 \* vacuity probe (expected to be violated when Vals holds 0 and -0): injectivity without identifying -0 with 0
-InjectiveStrict == Preimage(xm, xs) = Preimage(ym, ys) => xm = ym /\ xs = ys
+InjectiveStrict == xp = yp => xm = ym /\ xs = ys
 =============================================================================
